@@ -118,8 +118,9 @@ type fakeSrv struct {
 	errAt    int
 	hbLeft   int
 	maxFrags int
-	noMore   bool // a response said more_results = false
-	maxSync  int  // cut-off for a scanner that does not make progress
+	release  chan struct{} // non-nil: close requests are executed but not answered until it is closed
+	noMore   bool          // a response said more_results = false
+	maxSync  int           // cut-off for a scanner that does not make progress
 }
 
 var errInjected = errors.New("injected rpc failure")
@@ -207,6 +208,12 @@ func (f *fakeSrv) SendRPC(call hrpc.Call) (proto.Message, error) {
 	f.trace = append(f.trace, fmt.Sprintf("%s/%s/%s/%s/%s/%d", kind, hx(startRow), hx(stopRow), idStr, cl, req.GetNumberOfRows()))
 	if kind == "X" {
 		delete(f.scanners, req.GetScannerId())
+		if f.release != nil {
+			// a regionserver that executes the close but never answers it (until the run is over)
+			f.mu.Unlock()
+			<-f.release
+			f.mu.Lock()
+		}
 		return &pb.ScanResponse{}, nil
 	}
 	idx := f.nsync
@@ -407,10 +414,11 @@ type endPlan struct {
 }
 
 type runCfg struct {
-	hb       int
-	maxFrags int
-	chaos    *RNG
-	idBase   uint64
+	silentClose bool // the server never answers close requests
+	hb          int
+	maxFrags    int
+	chaos       *RNG
+	idBase      uint64
 }
 
 type runOut struct {
@@ -558,6 +566,10 @@ func runScan(c *scanCase, ch *chooser, plan endPlan, cfg runCfg) runOut {
 		errAt: -1, hbLeft: cfg.hb, maxFrags: cfg.maxFrags, maxSync: bound}
 	if plan.kind == "err" {
 		f.errAt = plan.n
+	}
+	if cfg.silentClose {
+		f.release = make(chan struct{})
+		defer close(f.release)
 	}
 	sc := gohbase.VerifNewScanner(f, scan)
 	var ops strings.Builder
@@ -955,6 +967,7 @@ func runC14(tier string, seed uint64, out *Out) {
 		if i%10 == 9 {
 			c.closing = true
 		}
+		cfg.silentClose = i%4 == 3
 		s := rng.Next()
 		allEnds(out, c, func() *chooser { return &chooser{rng: NewRNG(s, "script")} }, cfg)
 	}
